@@ -69,7 +69,7 @@ def run(ctx):
     ctx.cov["row_configurations_per_knob"] = knobs_hit
     for r in results:
         if "error" in r:
-            ctx.violation("measurement crashed on %s: %s" % (r["label"], r["error"][-600:]), {"config": r["cfg"], "traceback": r["error"]}, no_input=True)
+            ctx.violation("measurement crashed on %s: %s" % (r["label"], r["error"][-600:]), {"config": r["cfg"], "traceback": r["error"]}, no_input=not S.lib_failed(r["error"]))
             continue
         if "skipped" in r:
             ctx.hist("skipped", r["skipped"].split(":")[0][:60])
@@ -169,7 +169,7 @@ def run(ctx):
     n_fits = 0
     for t in fits:
         if "error" in t:
-            ctx.violation("tone job crashed on %s: %s" % (t["label"], t["error"][-600:]), {"config": t["cfg"], "traceback": t["error"]}, no_input=True)
+            ctx.violation("tone job crashed on %s: %s" % (t["label"], t["error"][-600:]), {"config": t["cfg"], "traceback": t["error"]}, no_input=not S.lib_failed(t["error"]))
             continue
         if "skipped" in t:
             ctx.hist("fit_skipped", t["skipped"][:50])
